@@ -362,10 +362,6 @@ func (c ProtoMapCodec) Append(data []byte, ptr unsafe.Pointer, tag []byte) []byt
 }
 
 func (c ProtoMapCodec) Read(data []byte, ptr unsafe.Pointer, wt plenccore.WireType) (n int, err error) {
-	if len(data) == 0 {
-		return 0, nil
-	}
-
 	// ptr is a pointer to a map pointer
 	if *(*unsafe.Pointer)(ptr) == nil {
 		*(*unsafe.Pointer)(ptr) = unsafe.Pointer(reflect.MakeMap(c.rtype).Pointer())
